@@ -316,6 +316,17 @@ fn build_public_batch_constraints(
     builder.register_public_inputs(&output_pis);
 }
 
+/// Verification hook: build the wrapper constraints over caller-supplied targets.
+#[cfg(feature = "verif-hooks")]
+pub fn verif_build_public_batch_wrapper(
+    builder: &mut CircuitBuilder<F, D>,
+    targets: &PublicBatchCircuitTargets,
+    n_inner: usize,
+    private_batch_num_leaves: usize,
+) {
+    build_public_batch_constraints(builder, targets, n_inner, private_batch_num_leaves)
+}
+
 #[cfg(test)]
 mod tests {
     use super::*;
